@@ -8,11 +8,87 @@ import random
 
 import torch
 
-from .autojac_replay import fmap, present, recording
+from .autojac_replay import fmap, recording
 from .programs import Built, as_int_list
 
 CHUNKS = [None, 1, 2, 3, 4]
-PRESENT = ["list", "tuple", "gen", "dictkeys"]
+EPS = 2.0 ** -29           # the precision presentation realises an integer v as v + EPS * K (TransformValues.tla)
+
+# (op, arg) -> forms in which that key collection may be presented: ArgForms of spec/TransformValues.tla,
+# set by harness/checks/c15.py from the MENU export of the run (fork-inherited by the workers)
+FORMS: dict[tuple[str, str], list[str]] = {}
+
+
+def set_forms(rows) -> None:
+    FORMS.clear()
+    for r in rows or []:
+        FORMS[(r["op"], r["arg"])] = sorted(r["forms"])
+
+
+def present(items: list, form: str, variant: int = 0):
+    items = list(items)
+    if form == "list":
+        return items
+    if form == "tuple":
+        return tuple(items)
+    if form == "set":
+        return set(items)
+    if form == "dictkeys":
+        return [dict.fromkeys(items).keys(), {x: 0 for x in items}][variant % 2]
+    if form == "iter":
+        return [iter(items), reversed(list(reversed(items)))][variant % 2]
+    if form == "gen":
+        return [(x for x in items), map(lambda x: x, items), filter(lambda x: True, items)][variant % 3]
+    raise ValueError(form)
+
+
+def pres(rng: random.Random, op: str, arg: str, items: list, used: list | None = None):
+    """Present a key collection to constructor argument (op, arg) in a form drawn from the spec's table."""
+    form = rng.choice(FORMS.get((op, arg), ["list"]))
+    if used is not None:
+        used.append(f"{op}.{arg}={form}")
+    return present(items, form, rng.randrange(6))
+
+
+def dtype_fail(v: torch.Tensor, dtype) -> str | None:
+    return None if v.dtype == dtype else f"has element type {str(v.dtype)[6:]}, the inputs determine {str(dtype)[6:]}"
+
+
+def pt_of(flat, kflat, shape):
+    """float64 tensor of v + EPS * K"""
+    return torch.tensor([float(v) + EPS * float(k) for v, k in zip(flat, kflat)], dtype=torch.float64).reshape(tuple(shape))
+
+
+def prows_of(rows, krows, shape):
+    m = len(rows)
+    n = 1
+    for x in shape:
+        n *= x
+    return torch.tensor([[float(v) + EPS * float(k) for v, k in zip(r, kr)] for r, kr in zip(rows, krows)],
+                        dtype=torch.float64).reshape((m, n)).reshape((m,) + tuple(shape))
+
+
+def pexp(e, ek):
+    return [float(v) + EPS * float(k) for v, k in zip(e, ek)]
+
+
+def split_prec(x: float):
+    """x = v + EPS * k with integers v, k (|k| < 2^28): (v, k); None if x is not of that form."""
+    if x != x or x in (float("inf"), float("-inf")):
+        return None
+    v = round(x)
+    k = (x - v) * 2.0 ** 29
+    if k != int(k):
+        return None
+    return int(v), int(k)
+
+
+def split_list(flat):
+    """list of floats -> (list of v, list of k) or None"""
+    parts = [split_prec(x) for x in flat]
+    if any(q is None for q in parts):
+        return None
+    return [q[0] for q in parts], [q[1] for q in parts]
 
 
 def t_of(flat, shape, dtype):
@@ -64,9 +140,8 @@ class CallRun:
 
     def run_jac(self, outs, ins, batch, chunk, retain=True):
         import torchjd.autojac._transform as T
-        how_o, how_i = self.rng.choice(PRESENT), self.rng.choice(PRESENT)
-        tr = T.Jac(present([self.B.node(o) for o in outs], how_o), present([self.B.node(i) for i in ins], how_i), chunk,
-                   retain_graph=retain)
+        tr = T.Jac(pres(self.rng, "jac", "outputs", [self.B.node(o) for o in outs]),
+                   pres(self.rng, "jac", "inputs", [self.B.node(i) for i in ins]), chunk, retain_graph=retain)
         return tr, tr(self.jac_input(batch, outs))
 
     def compare_jac(self, res, ins, expected: dict, m: int, what: str):
@@ -85,6 +160,8 @@ class CallRun:
             exp = [[float(x) for x in row] for row in expected[i]]
             if flat_rows(v, m) != exp:
                 self.fails.append(f"{what}: jacobian w.r.t. node {i} is {flat_rows(v, m)}, expected {exp}")
+            if dtype_fail(v, self.dtype):
+                self.fails.append(f"{what}: jacobian w.r.t. node {i} {dtype_fail(v, self.dtype)}")
 
     def check(self) -> None:
         import torchjd.autojac._transform as T
@@ -113,8 +190,8 @@ class CallRun:
         # Grad row by row = the rows of Jac
         for r in range(m):
             try:
-                tr = T.Grad(present([self.B.node(o) for o in self.outs], self.rng.choice(PRESENT)),
-                            present([self.B.node(i) for i in self.ins], self.rng.choice(PRESENT)), retain_graph=True)
+                tr = T.Grad(pres(self.rng, "grad", "outputs", [self.B.node(o) for o in self.outs]),
+                            pres(self.rng, "grad", "inputs", [self.B.node(i) for i in self.ins]), retain_graph=True)
                 res = tr(T.Gradients(shuffled_dict([(self.B.node(o), t_of(A[o][r], self.shapes[o - 1], self.dtype)) for o in self.outs], self.rng)))
                 self.evals += 1
                 if type(res) is not T.Gradients:
@@ -125,6 +202,8 @@ class CallRun:
                     if tuple(v.shape) != tuple(self.shapes[i - 1]) or v.detach().reshape(-1).tolist() != exp:
                         self.fails.append(f"Grad {tag} cotangent row {r}: gradient w.r.t. node {i} is {v.detach().reshape(-1).tolist()} "
                                           f"(shape {tuple(v.shape)}), expected {exp}")
+                    if dtype_fail(v, self.dtype):
+                        self.fails.append(f"Grad {tag} cotangent row {r}: gradient w.r.t. node {i} {dtype_fail(v, self.dtype)}")
             except Exception as e:                  # noqa: BLE001
                 self.fails.append(f"Grad {tag} row {r}: raised {type(e).__name__}: {str(e)[:120]}")
         # chaining through intermediate tensors = end to end
@@ -134,13 +213,83 @@ class CallRun:
                 mid = list(reversed(mid))
             c1, c2 = self.rng.choice(CHUNKS), self.rng.choice(CHUNKS)
             try:
-                first = T.Jac([self.B.node(o) for o in self.outs], [self.B.node(x) for x in mid], c1, retain_graph=True)
-                second = T.Jac([self.B.node(x) for x in mid], [self.B.node(i) for i in self.ins], c2, retain_graph=True)
+                first = T.Jac(pres(self.rng, "jac", "outputs", [self.B.node(o) for o in self.outs]),
+                              pres(self.rng, "jac", "inputs", [self.B.node(x) for x in mid]), c1, retain_graph=True)
+                second = T.Jac(pres(self.rng, "jac", "outputs", [self.B.node(x) for x in mid]),
+                               pres(self.rng, "jac", "inputs", [self.B.node(i) for i in self.ins]), c2, retain_graph=True)
                 res = (second << first)(self.jac_input(A))
                 self.evals += 1
                 self.compare_jac(res, self.ins, jA, m, f"Jac(mid->ins, {c2}) << Jac(outs->mid, {c1}) through {mid} {tag}")
             except Exception as e:                  # noqa: BLE001
                 self.fails.append(f"chained Jac through {mid} {tag}: raised {type(e).__name__}: {str(e)[:120]}")
+
+    def check_precision(self) -> None:
+        """float64 precision presentation (TransformValues.tla): (1) cotangents A + 2^-29 B on the integer program:
+        by linearity Jac = jacA + 2^-29 jacB EXACTLY; (2) the program with leaf values v + k 2^-29 as well
+        (Built(perturb)): Jac / Grad against torch.autograd.grad on a twin graph at 1e-12 relative.  Any internal
+        round trip through float32 is visible here and only here (small integers survive it)."""
+        import torchjd.autojac._transform as T
+        assert self.dtype == torch.float64
+        scn, m = self.scn, self.m
+        A, Bb = fmap(scn["ctA"]), fmap(scn["ctB"])
+        jA, jB = fmap(scn["jacA"]), fmap(scn["jacB"])
+        tag = f"precision outs={self.outs} ins={self.ins} m={m} shapes={[list(s) for s in self.shapes]} float64"
+
+        def pinput(Bt):
+            return T.Jacobians(shuffled_dict([(Bt.node(o), prows_of(A[o], Bb[o], self.shapes[o - 1])) for o in self.outs], self.rng))
+        chunk = self.rng.choice(CHUNKS)
+        try:
+            tr = T.Jac(pres(self.rng, "jac", "outputs", [self.B.node(o) for o in self.outs]),
+                       pres(self.rng, "jac", "inputs", [self.B.node(i) for i in self.ins]), chunk, retain_graph=True)
+            res = tr(pinput(self.B))
+            self.evals += 1
+            for i in self.ins:
+                v = res[self.B.node(i)]
+                exp = [pexp(ra, rb) for ra, rb in zip(jA[i], jB[i])]
+                if dtype_fail(v, torch.float64):
+                    self.fails.append(f"Jac(chunk_size={chunk}) {tag}: jacobian w.r.t. node {i} {dtype_fail(v, torch.float64)}")
+                elif tuple(v.shape) != (m,) + tuple(self.shapes[i - 1]) or flat_rows(v, m) != exp:
+                    err = max((abs(a - b) for ra, rb in zip(flat_rows(v, m), exp) for a, b in zip(ra, rb)), default=0.0) \
+                        if tuple(v.shape) == (m,) + tuple(self.shapes[i - 1]) else float("nan")
+                    self.fails.append(f"Jac(chunk_size={chunk}) {tag}: on cotangents A + 2^-29 B the jacobian w.r.t. node {i} differs from "
+                                      f"jacA + 2^-29 jacB (exact in float64) by {err:.3e}")
+            # Grad on the first row
+            trg = T.Grad(pres(self.rng, "grad", "outputs", [self.B.node(o) for o in self.outs]),
+                         pres(self.rng, "grad", "inputs", [self.B.node(i) for i in self.ins]), retain_graph=True)
+            resg = trg(T.Gradients(shuffled_dict([(self.B.node(o), pt_of(A[o][0], Bb[o][0], self.shapes[o - 1])) for o in self.outs], self.rng)))
+            self.evals += 1
+            for i in self.ins:
+                v = resg[self.B.node(i)]
+                if dtype_fail(v, torch.float64) or v.detach().reshape(-1).tolist() != pexp(jA[i][0], jB[i][0]):
+                    self.fails.append(f"Grad {tag}: on cotangents A + 2^-29 B the gradient w.r.t. node {i} is not jacA + 2^-29 jacB "
+                                      f"(float64, exact): {dtype_fail(v, torch.float64) or v.detach().reshape(-1).tolist()}")
+        except Exception as e:                      # noqa: BLE001
+            self.fails.append(f"{tag}: raised {type(e).__name__}: {str(e)[:120]}")
+        # (2) perturbed leaf values, twin graph, torch.autograd.grad as the reference
+        try:
+            P1 = Built(scn["prog"], dtype=torch.float64, shapes=self.shapes, real=self.B.real, perturb=EPS)
+            P2 = Built(scn["prog"], dtype=torch.float64, shapes=self.shapes, real=self.B.real, perturb=EPS)
+            tr = T.Jac(pres(self.rng, "jac", "outputs", [P1.node(o) for o in self.outs]),
+                       pres(self.rng, "jac", "inputs", [P1.node(i) for i in self.ins]), self.rng.choice(CHUNKS), retain_graph=True)
+            res = tr(pinput(P1))
+            self.evals += 1
+            for r in range(m):
+                ref = torch.autograd.grad([P2.node(o) for o in self.outs], [P2.node(i) for i in self.ins],
+                                          grad_outputs=[pt_of(A[o][r], Bb[o][r], self.shapes[o - 1]) for o in self.outs],
+                                          retain_graph=True, allow_unused=True)
+                for i, g in zip(self.ins, ref):
+                    g = torch.zeros_like(P2.node(i)) if g is None else g
+                    v = res[P1.node(i)]
+                    if dtype_fail(v, torch.float64):
+                        self.fails.append(f"Jac {tag} (perturbed leaves): jacobian w.r.t. node {i} {dtype_fail(v, torch.float64)}")
+                        continue
+                    scale = max(1.0, float(g.abs().max())) if g.numel() else 1.0
+                    err = float((v[r] - g).abs().max()) if g.numel() else 0.0
+                    if err > 1e-12 * scale:
+                        self.fails.append(f"Jac {tag} (leaf values v + k 2^-29): row {r} of the jacobian w.r.t. node {i} differs from "
+                                          f"torch.autograd.grad on a twin graph by {err:.3e} (scale {scale:.3g}, allowance 1e-12 relative)")
+        except Exception as e:                      # noqa: BLE001
+            self.fails.append(f"{tag} (perturbed leaves): raised {type(e).__name__}: {str(e)[:120]}")
 
     def batch0(self) -> bool:
         """empty batch of cotangents (outside the universe, DESIGN 9 / lead's decision): counted only"""
@@ -168,6 +317,14 @@ def replay_call(item) -> dict:
             evals += run.evals
             if s == 0 and dt == dtypes[0]:
                 b0 += int(run.batch0())
+    # the float64 precision presentation, once per scenario whatever the dtypes of the tier
+    run = CallRun(scn, menu, rng, dtype=torch.float64)
+    try:
+        run.check_precision()
+    except Exception as e:                          # noqa: BLE001
+        run.fails.append(f"harness error (precision) {type(e).__name__}: {str(e)[:200]}")
+    fails += run.fails
+    evals += run.evals
     return {"fails": fails[:4], "evals": evals, "batch0_raised": b0}
 
 
@@ -210,19 +367,38 @@ def shape_combos(sizes, menu, rng: random.Random, limit: int | None):
     return [allc[0]] + rest[:limit - 1]
 
 
-def check_value(scn: dict, shapes, rng: random.Random, dtype) -> tuple[list[str], int, list[str]]:
+def check_value(scn: dict, shapes, rng: random.Random, dtype, prec: bool = False) -> tuple[list[str], int, list[str]]:
+    """One value scenario on the real classes.  ``prec``: the float64 precision presentation - every integer v of the
+    scenario is realised as v + 2^-29 K (K = the scenario's second integer input); by linearity (ValuesLinear) the
+    specified result is expected + 2^-29 expectedK, exact in float64 and compared with equality."""
     import torchjd.autojac._transform as T
     from torchjd.aggregation import UPGrad, Constant, Mean, Sum
     kind = scn["kind"]
     sizes = scn["sizes"]
     n = len(sizes)
+    if prec:
+        dtype = torch.float64
     keys = {k: torch.zeros(shapes[k - 1], dtype=dtype) + k for k in range(1, n + 1)}
     fails: list[str] = []
     drift: list[str] = []
     evals = 0
-    tag = f"{kind} sizes={sizes} shapes={[list(s) for s in shapes]} {str(dtype)[6:]}"
+    used: list[str] = []
+    tag = f"{kind} sizes={sizes} shapes={[list(s) for s in shapes]} {str(dtype)[6:]}" + (" precision (v + 2^-29 K)" if prec else "")
 
-    def cmp_grad(res, exp: dict, cls, what):
+    def how():
+        return " [" + ",".join(u for u in used if not u.endswith("=list")) + "]" if any(not u.endswith("=list") for u in used) else ""
+
+    def grad_t(v, kv, k):
+        return pt_of(v, kv, shapes[k - 1]) if prec else t_of(v, shapes[k - 1], dtype)
+
+    def jac_t(rows, krows, k):
+        return prows_of(rows, krows, shapes[k - 1]) if prec else rows_of(rows, shapes[k - 1], dtype)
+
+    def expect(e, ek):
+        return pexp(e, ek) if prec else [float(x) for x in e]
+
+    def cmp_grad(res, exp: dict, expK: dict, cls, what):
+        what = what + how()
         if type(res) is not cls:
             fails.append(f"{what}: result is a {type(res).__name__}, expected {cls.__name__}")
         if {id(k) for k in res.keys()} != {id(keys[k]) for k in exp}:
@@ -230,11 +406,15 @@ def check_value(scn: dict, shapes, rng: random.Random, dtype) -> tuple[list[str]
             return
         for k, e in exp.items():
             v = res[keys[k]]
-            if tuple(v.shape) != tuple(shapes[k - 1]) or v.detach().reshape(-1).tolist() != [float(x) for x in e]:
-                fails.append(f"{what}: key {k} has value {v.detach().reshape(-1).tolist()} (shape {tuple(v.shape)}), expected {e} "
+            ee = expect(e, expK[k] if prec else e)
+            if tuple(v.shape) != tuple(shapes[k - 1]) or v.detach().reshape(-1).tolist() != ee:
+                fails.append(f"{what}: key {k} has value {v.detach().reshape(-1).tolist()} (shape {tuple(v.shape)}), expected {ee} "
                              f"(shape {tuple(shapes[k - 1])})")
+            if dtype_fail(v, dtype):
+                fails.append(f"{what}: the value of key {k} {dtype_fail(v, dtype)}")
 
-    def cmp_jac(res, exp: dict, what):
+    def cmp_jac(res, exp: dict, expK: dict, what):
+        what = what + how()
         if type(res) is not T.Jacobians:
             fails.append(f"{what}: result is a {type(res).__name__}, expected Jacobians")
         if {id(k) for k in res.keys()} != {id(keys[k]) for k in exp}:
@@ -243,58 +423,74 @@ def check_value(scn: dict, shapes, rng: random.Random, dtype) -> tuple[list[str]
         for k, e in exp.items():
             v = res[keys[k]]
             m = len(e)
-            if tuple(v.shape) != (m,) + tuple(shapes[k - 1]) or flat_rows(v, m) != [[float(x) for x in r] for r in e]:
+            ee = [expect(r, (expK[k][i] if prec else r)) for i, r in enumerate(e)]
+            if tuple(v.shape) != (m,) + tuple(shapes[k - 1]) or flat_rows(v, m) != ee:
                 fails.append(f"{what}: key {k} has rows {flat_rows(v, v.shape[0]) if v.dim() else v.tolist()} (shape {tuple(v.shape)}), "
-                             f"expected {e} (shape {(m,) + tuple(shapes[k - 1])})")
+                             f"expected {ee} (shape {(m,) + tuple(shapes[k - 1])})")
+            if dtype_fail(v, dtype):
+                fails.append(f"{what}: the value of key {k} {dtype_fail(v, dtype)}")
+
+    def K_of(name):
+        return fmap(scn[name]) if prec and scn.get(name) else {}
 
     if kind == "init":
-        res = T.Init(present(list(keys.values()), rng.choice(PRESENT)))(T.EmptyTensorDict())
+        res = T.Init(pres(rng, "init", "values", list(keys.values()), used))(T.EmptyTensorDict())
         evals += 1
-        cmp_grad(res, fmap(scn["expected"]), T.Gradients, f"Init {tag}")
+        exp = fmap(scn["expected"])
+        cmp_grad(res, exp, {k: [0] * len(e) for k, e in exp.items()}, T.Gradients, f"Init {tag}")
     elif kind == "select":
-        inp = fmap(scn["input"])
+        inp, inpK = fmap(scn["input"]), K_of("inputK")
         K = [int(k) for k in scn["K"]]
-        d = T.Gradients(shuffled_dict([(keys[k], t_of(v, shapes[k - 1], dtype)) for k, v in inp.items()], rng))
-        res = T.Select([keys[k] for k in K], list(keys.values()))(d)
+        d = T.Gradients(shuffled_dict([(keys[k], grad_t(v, inpK.get(k), k)) for k, v in inp.items()], rng))
+        res = T.Select(pres(rng, "select", "keys", [keys[k] for k in K], used),
+                       pres(rng, "select", "required_keys", list(keys.values()), used))(d)
         evals += 1
-        cmp_grad(res, fmap(scn["expected"]) if scn["expected"] else {}, T.Gradients, f"Select({K}) {tag}")
+        cmp_grad(res, fmap(scn["expected"]) if scn["expected"] else {}, K_of("expectedK"), T.Gradients, f"Select({K}) {tag}")
     elif kind == "diag":
-        inp = fmap(scn["input"])
+        inp, inpK = fmap(scn["input"]), K_of("inputK")
         order = [int(k) for k in scn["order"]]
-        d = T.Gradients(shuffled_dict([(keys[k], t_of(v, shapes[k - 1], dtype)) for k, v in inp.items()], rng))
-        res = T.Diagonalize(present([keys[k] for k in order], rng.choice(["list", "tuple", "gen"])))(d)
+        d = T.Gradients(shuffled_dict([(keys[k], grad_t(v, inpK.get(k), k)) for k, v in inp.items()], rng))
+        res = T.Diagonalize(pres(rng, "diag", "considered", [keys[k] for k in order], used))(d)
         evals += 1
-        cmp_jac(res, fmap(scn["expected"]), f"Diagonalize(order={order}) {tag}")
+        cmp_jac(res, fmap(scn["expected"]), K_of("expectedK"), f"Diagonalize(order={order}) {tag}")
     elif kind == "stack":
         Feed = feed_class()
         members = [fmap(mm) for mm in scn["members"]]
-        trs = [Feed(shuffled_dict([(keys[k], t_of(v, shapes[k - 1], dtype)) for k, v in mm.items()], rng)) for mm in members]
-        res = T.Stack(trs)(T.EmptyTensorDict())
+        membersK = [fmap(mm) for mm in scn["membersK"]] if prec else [{} for _ in members]
+        trs = [Feed(shuffled_dict([(keys[k], grad_t(v, mk.get(k), k)) for k, v in mm.items()], rng)) for mm, mk in zip(members, membersK)]
+        res = T.Stack(pres(rng, "stack", "transforms", trs, used))(T.EmptyTensorDict())
         evals += 1
-        cmp_jac(res, fmap(scn["expected"]) if scn["expected"] else {}, f"Stack(members over {[sorted(mm) for mm in members]}) {tag}")
+        cmp_jac(res, fmap(scn["expected"]) if scn["expected"] else {}, K_of("expectedK"),
+                f"Stack(members over {[sorted(mm) for mm in members]}) {tag}")
     elif kind == "agg":
-        inp = fmap(scn["input"])
+        inp, inpK = fmap(scn["input"]), K_of("inputK")
         order = [int(k) for k in scn["order"]]
         m = scn["m"]
         w = torch.tensor([float(x) for x in scn["w"]], dtype=dtype)
 
         def jd():
-            return T.Jacobians(shuffled_dict([(keys[k], rows_of(v, shapes[k - 1], dtype)) for k, v in inp.items()], rng))
+            return T.Jacobians(shuffled_dict([(keys[k], jac_t(v, inpK.get(k), k)) for k, v in inp.items()], rng))
+
+        def korder():
+            return pres(rng, "agg", "key_order", [keys[k] for k in order], used)
         rec = recording(Constant(w))
-        res = T.Aggregate(rec, present([keys[k] for k in order], rng.choice(["list", "tuple", "dictkeys"])))(jd())
+        res = T.Aggregate(rec, korder())(jd())
         evals += 1
         what = f"Aggregate(Constant({scn['w']}), order={order}) {tag}"
-        cmp_grad(res, fmap(scn["expected"]), T.Gradients, what)
+        cmp_grad(res, fmap(scn["expected"]), K_of("expectedK"), T.Gradients, what)
         if len(rec.calls) != 1:
             fails.append(f"{what}: aggregator called {len(rec.calls)} times")
         else:
             got = rec.calls[0]["matrix"].tolist()
-            if got != [[float(x) for x in r] for r in scn["united"]]:
+
+            def real(k, r):
+                return expect(inp[k][r], inpK[k][r] if prec else inp[k][r])
+            united = [sum((real(k, r) for k in order), []) for r in range(m)] if prec else [[float(x) for x in r] for r in scn["united"]]
+            if got != united:
                 # the statement does not fix the order of the concatenation: any key order is fine
                 ok = False
                 for perm in itertools.permutations(sorted(inp)):
-                    cat = [sum((inp[k][r] for k in perm), []) for r in range(m)]
-                    if got == [[float(x) for x in row] for row in cat]:
+                    if got == [sum((real(k, r) for k in perm), []) for r in range(m)]:
                         ok = True
                         break
                 if ok:
@@ -302,14 +498,29 @@ def check_value(scn: dict, shapes, rng: random.Random, dtype) -> tuple[list[str]
                 else:
                     fails.append(f"{what}: the aggregator received {got}, which is not the column-wise concatenation of the per-key "
                                  f"matrices {scn['united']} (in any key order)")
-        res = T.Aggregate(Sum(), [keys[k] for k in order])(jd())
+            if rec.calls[0]["matrix"].dtype != dtype:
+                fails.append(f"{what}: the aggregator received a {str(rec.calls[0]['matrix'].dtype)[6:]} matrix, the jacobians are {str(dtype)[6:]}")
+        res = T.Aggregate(Sum(), korder())(jd())
         evals += 1
-        cmp_grad(res, fmap(scn["expectedSum"]), T.Gradients, f"Aggregate(Sum(), order={order}) {tag}")
+        cmp_grad(res, fmap(scn["expectedSum"]), K_of("expectedSumK"), T.Gradients, f"Aggregate(Sum(), order={order}) {tag}")
+        if prec:
+            # weights that need more than 24 mantissa bits as well: against the explicit product, 1e-12 relative
+            wp = [float(x) + 2.0 * EPS * (1 + r % 2) for r, x in enumerate(scn["w"])]
+            res = T.Aggregate(Constant(torch.tensor(wp, dtype=torch.float64)), korder())(jd())
+            evals += 1
+            for k in order:
+                ref = [sum(wp[r] * real(k, r)[c] for r in range(m)) for c in range(sizes[k - 1])]
+                v = res[keys[k]]
+                scale = max(1.0, max(abs(x) for x in ref))
+                err = max(abs(a - b) for a, b in zip(v.detach().reshape(-1).tolist(), ref)) if v.numel() == len(ref) else float("nan")
+                if dtype_fail(v, dtype) or not err <= 1e-12 * scale:
+                    fails.append(f"Aggregate(Constant(w + k 2^-28), order={order}) {tag}: key {k} differs from the explicit product w^T J by "
+                                 f"{err:.3e} (scale {scale:.3g}, allowance 1e-12 relative) {dtype_fail(v, dtype) or ''}")
         # any aggregator: every key receives its own slice of whatever vector the aggregator returned
         for agg in (Mean(), UPGrad()):
             rec = recording(agg)
             try:
-                res = T.Aggregate(rec, [keys[k] for k in order])(jd())
+                res = T.Aggregate(rec, korder())(jd())
             except Exception:                       # noqa: BLE001   (the aggregator itself may refuse a matrix)
                 continue
             evals += 1
@@ -324,6 +535,8 @@ def check_value(scn: dict, shapes, rng: random.Random, dtype) -> tuple[list[str]
                 v = res[keys[k]]
                 if tuple(v.shape) != tuple(shapes[k - 1]) or not torch.equal(v.reshape(-1), sl):
                     fails.append(f"Aggregate({agg}, order={order}) {tag}: key {k} did not receive its own slice of the aggregated vector")
+                if dtype_fail(v, vec.dtype):
+                    fails.append(f"Aggregate({agg}, order={order}) {tag}: the value of key {k} {dtype_fail(v, vec.dtype)}")
     return fails, evals, drift
 
 
@@ -340,6 +553,14 @@ def replay_value(item) -> dict:
             fails += f
             evals += e
             drift += d
+        # the float64 precision presentation of the same scenario under the same shapes
+        try:
+            f, e, d = check_value(scn, shapes, rng, torch.float64, prec=True)
+        except Exception as ex:                     # noqa: BLE001
+            f, e, d = [f"{scn['kind']} sizes={scn['sizes']} shapes={[list(s) for s in shapes]} precision: raised {type(ex).__name__}: {str(ex)[:160]}"], 1, []
+        fails += f
+        evals += e
+        drift += d
     return {"fails": fails[:4], "evals": evals, "drift": drift[:1]}
 
 
@@ -405,6 +626,34 @@ def rg_flags(prog) -> list[bool]:
     return rg
 
 
+def abs_bound(prog, shapes, outs, ins, ct) -> float:
+    """Upper bound on the magnitude of every forward value, adjoint and partial sum met while the cotangents ct are
+    pulled back through prog: the same computation with every constant, leaf value and cotangent replaced by its
+    absolute value (triangle inequality; float64).  Below 2^23 the float32 computation is exact."""
+    ap = []
+    for nd in prog:
+        nd = dict(nd)
+        if nd["op"] == "leaf":
+            nd["val"] = [abs(v) for v in nd["val"]]
+            nd["rg"] = True
+        elif nd["op"] == "lin":
+            nd["mat"] = [[abs(v) for v in r] for r in nd["mat"]]
+        elif nd["op"] == "scale":
+            nd["c"] = abs(nd["c"])
+        elif nd["op"] == "detach":
+            nd = {"op": "scale", "a": nd["a"], "c": 1}
+        ap.append(nd)
+    A = Built(ap, shapes=shapes, dtype=torch.float64)
+    bound = max([float(t.detach().abs().max()) for t in A.t if t.numel()] + [0.0])
+    leaves = [A.t[i] for i, nd in enumerate(ap) if nd["op"] == "leaf"]
+    for r in range(len(next(iter(ct.values())))):
+        gs = torch.autograd.grad([A.node(o) for o in outs], leaves + [A.node(i) for i in ins if ap[i - 1]["op"] != "leaf"],
+                                 grad_outputs=[t_of([abs(v) for v in ct[o][r]], shapes[o - 1], torch.float64) for o in outs],
+                                 retain_graph=True, allow_unused=True)
+        bound = max([bound] + [float(g.detach().abs().max()) for g in gs if g is not None and g.numel()])
+    return bound
+
+
 def record_jac_episode(rng: random.Random, ep: int, menu) -> dict | None:
     import torchjd.autojac._transform as T
     prog = random_program(rng)
@@ -423,31 +672,55 @@ def record_jac_episode(rng: random.Random, ep: int, menu) -> dict | None:
     if any(abs(v) > 60 for vals in B0.flat_vals() for v in vals):
         return None
     shapes = pick_shapes(sizes, menu, rng)
-    B = Built(prog, shapes=shapes)
+    prec = rng.random() < 0.4                      # float64 precision episode: cotangents ct + 2^-29 ctK
+    dt = torch.float64 if prec or rng.random() < 0.6 else torch.float32
     m = rng.choice([1, 1, 2, 3])
     use_grad = m == 1 and rng.random() < 0.5
     ct = {o: [[rng.randint(-3, 3) for _ in range(sizes[o - 1])] for _ in range(m)] for o in outs}
+    ctK = {o: [[rng.randint(1, 3) for _ in range(sizes[o - 1])] for _ in range(m)] for o in outs}
+    if dt == torch.float32 and abs_bound(prog, shapes, outs, ins, ct) >= 2 ** 23:
+        dt = torch.float64                         # float32 would not be exact on this episode
+    B = Built(prog, shapes=shapes, dtype=dt)
     chunk = rng.choice(CHUNKS)
+    used: list[str] = []
     e = {"ep": ep, "kind": "grad" if use_grad else "jac", "prog": prog, "outs": outs, "ins": ins, "m": m,
-         "ct": [ct[o] for o in outs], "chunk": chunk or 0, "meta": {"shapes": [list(s) for s in shapes]}}
+         "ct": [ct[o] for o in outs], "chunk": chunk or 0, "dt": str(dt)[6:], "rdt": [], "prec": int(prec),
+         "ctK": [ctK[o] for o in outs] if prec else [], "resultK": [],
+         "meta": {"shapes": [list(s) for s in shapes], "presented": used}}
+
+    def g_t(o, r):
+        return pt_of(ct[o][r], ctK[o][r], shapes[o - 1]) if prec else t_of(ct[o][r], shapes[o - 1], dt)
+
+    def j_t(o):
+        return prows_of(ct[o], ctK[o], shapes[o - 1]) if prec else rows_of(ct[o], shapes[o - 1], dt)
     try:
         if use_grad:
-            res = T.Grad([B.node(o) for o in outs], [B.node(i) for i in ins], retain_graph=rng.random() < 0.5)(
-                T.Gradients(shuffled_dict([(B.node(o), t_of(ct[o][0], shapes[o - 1], torch.float64)) for o in outs], rng)))
+            res = T.Grad(pres(rng, "grad", "outputs", [B.node(o) for o in outs], used), pres(rng, "grad", "inputs", [B.node(i) for i in ins], used),
+                         retain_graph=rng.random() < 0.5)(T.Gradients(shuffled_dict([(B.node(o), g_t(o, 0)) for o in outs], rng)))
             got = [[res[B.node(i)].detach().reshape(-1).tolist()] for i in ins]
         else:
-            res = T.Jac([B.node(o) for o in outs], [B.node(i) for i in ins], chunk, retain_graph=rng.random() < 0.5)(
-                T.Jacobians(shuffled_dict([(B.node(o), rows_of(ct[o], shapes[o - 1], torch.float64)) for o in outs], rng)))
+            res = T.Jac(pres(rng, "jac", "outputs", [B.node(o) for o in outs], used), pres(rng, "jac", "inputs", [B.node(i) for i in ins], used),
+                        chunk, retain_graph=rng.random() < 0.5)(T.Jacobians(shuffled_dict([(B.node(o), j_t(o)) for o in outs], rng)))
             got = [flat_rows(res[B.node(i)], m) for i in ins]
+        e["rdt"] = [str(res[B.node(i)].dtype)[6:] for i in ins]
     except Exception as ex:                         # noqa: BLE001
         e["raised"] = f"{type(ex).__name__}: {str(ex)[:160]}"
         return e
-    ints = [[as_int_list(r) for r in g] for g in got]
+    if prec:
+        parts = [[split_list(r) for r in g] for g in got]
+        if any(q is None for g in parts for q in g):
+            e["nonint"] = True
+            e["result"] = []
+            return e
+        ints = [[q[0] for q in g] for g in parts]
+        e["resultK"] = [[q[1] for q in g] for g in parts]
+    else:
+        ints = [[as_int_list(r) for r in g] for g in got]
     if any(r is None for g in ints for r in g):
         e["nonint"] = True
         e["result"] = []
         return e
-    if any(abs(x) >= 2 ** 24 for g in ints for r in g for x in r):
+    if any(abs(x) >= 2 ** 24 for g in ints for r in g for x in r) or any(abs(x) >= 2 ** 22 for g in e["resultK"] for r in g for x in r):
         return None
     e["result"] = ints
     return e
@@ -459,40 +732,68 @@ def record_value_episode(rng: random.Random, ep: int, menu) -> dict:
     n = rng.choice([1, 2, 2, 3, 3])
     sizes = [rng.choice([1, 1, 2, 2, 3, 4]) for _ in range(n)]
     shapes = pick_shapes(sizes, menu, rng)
-    dt = rng.choice([torch.float64, torch.float32])
+    prec = rng.random() < 0.4                      # float64 precision episode: input v + 2^-29 K
+    dt = torch.float64 if prec else rng.choice([torch.float64, torch.float32])
     keys = {k: torch.zeros(shapes[k - 1], dtype=dt) for k in range(1, n + 1)}
     kind = rng.choice(["diag", "stack", "agg"])
-    e = {"ep": ep, "kind": kind, "sizes": sizes, "meta": {"shapes": [list(s) for s in shapes], "dtype": str(dt)[6:]}}
+    used: list[str] = []
+    e = {"ep": ep, "kind": kind, "sizes": sizes, "dt": str(dt)[6:], "rdt": [], "prec": int(prec), "resultK": [],
+         "meta": {"shapes": [list(s) for s in shapes], "dtype": str(dt)[6:], "presented": used}}
     order = list(range(1, n + 1))
     rng.shuffle(order)
+
+    def g_t(v, kv, k):
+        return pt_of(v, kv, shapes[k - 1]) if prec else t_of(v, shapes[k - 1], dt)
+
+    def parts_of(flat):
+        """(integer part, 2^-29 part) of a flat list of result values; (None, None) when not of that form"""
+        if not prec:
+            return as_int_list(flat), []
+        q = split_list(flat)
+        return (None, None) if q is None else q
     try:
         if kind == "diag":
             g = [[rng.randint(-4, 4) for _ in range(sizes[k])] for k in range(n)]
-            e |= {"order": order, "input": g}
-            res = T.Diagonalize([keys[k] for k in order])(
-                T.Gradients(shuffled_dict([(keys[k], t_of(g[k - 1], shapes[k - 1], dt)) for k in order], rng)))
+            gK = [[rng.randint(1, 3) for _ in range(sizes[k])] for k in range(n)]
+            e |= {"order": order, "input": g, "inputK": gK if prec else []}
+            res = T.Diagonalize(pres(rng, "diag", "considered", [keys[k] for k in order], used))(
+                T.Gradients(shuffled_dict([(keys[k], g_t(g[k - 1], gK[k - 1], k)) for k in order], rng)))
             N = sum(sizes)
-            e["result"] = [[as_int_list(r) for r in flat_rows(res[keys[k]], N)] for k in range(1, n + 1)]
+            both = [[parts_of(r) for r in flat_rows(res[keys[k]], N)] for k in range(1, n + 1)]
+            e["result"] = [[q[0] for q in rows] for rows in both]
+            e["resultK"] = [[q[1] for q in rows] for rows in both] if prec else []
+            e["rdt"] = [str(res[keys[k]].dtype)[6:] for k in range(1, n + 1)]
         elif kind == "stack":
             Feed = feed_class()
             c = rng.choice([1, 2, 3])
-            mem = []
+            mem, memK = [], []
             for _ in range(c):
                 ks = [k for k in range(1, n + 1) if rng.random() < 0.6]
                 mem.append([{"k": k, "v": [rng.randint(-4, 4) for _ in range(sizes[k - 1])]} for k in ks])
+                memK.append([{"k": k, "v": [rng.randint(1, 3) for _ in range(sizes[k - 1])]} for k in ks])
             e["members"] = mem
-            res = T.Stack([Feed(shuffled_dict([(keys[x["k"]], t_of(x["v"], shapes[x["k"] - 1], dt)) for x in mm], rng)) for mm in mem])(
-                T.EmptyTensorDict())
-            e["result"] = [{"k": k, "rows": [as_int_list(r) for r in flat_rows(res[keys[k]], c)]}
-                           for k in range(1, n + 1) if any(keys[k] is kk for kk in res.keys())]
+            e["membersK"] = memK if prec else []
+            res = T.Stack(pres(rng, "stack", "transforms",
+                               [Feed(shuffled_dict([(keys[x["k"]], g_t(x["v"], y["v"], x["k"])) for x, y in zip(mm, mk)], rng))
+                                for mm, mk in zip(mem, memK)], used))(T.EmptyTensorDict())
+            present_keys = [k for k in range(1, n + 1) if any(keys[k] is kk for kk in res.keys())]
+            both = {k: [parts_of(r) for r in flat_rows(res[keys[k]], c)] for k in present_keys}
+            e["result"] = [{"k": k, "rows": [q[0] for q in both[k]]} for k in present_keys]
+            e["resultK"] = [{"k": k, "rows": [q[1] for q in both[k]]} for k in present_keys] if prec else []
+            e["rdt"] = [str(res[keys[k]].dtype)[6:] for k in present_keys]
         else:
             m = rng.choice([1, 2, 3])
             J = [[[rng.randint(-3, 3) for _ in range(sizes[k])] for _ in range(m)] for k in range(n)]
+            JK = [[[rng.randint(1, 3) for _ in range(sizes[k])] for _ in range(m)] for k in range(n)]
             w = [rng.choice([-2, -1, 2, 3]) for _ in range(m)]
-            e |= {"order": order, "input": J, "w": w, "m": m}
-            res = T.Aggregate(Constant(torch.tensor([float(x) for x in w], dtype=dt)), [keys[k] for k in order])(
-                T.Jacobians(shuffled_dict([(keys[k], rows_of(J[k - 1], shapes[k - 1], dt)) for k in order], rng)))
-            e["result"] = [as_int_list(res[keys[k]].detach().reshape(-1).tolist()) for k in range(1, n + 1)]
+            e |= {"order": order, "input": J, "inputK": JK if prec else [], "w": w, "m": m}
+            res = T.Aggregate(Constant(torch.tensor([float(x) for x in w], dtype=dt)), pres(rng, "agg", "key_order", [keys[k] for k in order], used))(
+                T.Jacobians(shuffled_dict([(keys[k], prows_of(J[k - 1], JK[k - 1], shapes[k - 1]) if prec else rows_of(J[k - 1], shapes[k - 1], dt))
+                                           for k in order], rng)))
+            both = [parts_of(res[keys[k]].detach().reshape(-1).tolist()) for k in range(1, n + 1)]
+            e["result"] = [q[0] for q in both]
+            e["resultK"] = [q[1] for q in both] if prec else []
+            e["rdt"] = [str(res[keys[k]].dtype)[6:] for k in range(1, n + 1)]
     except Exception as ex:                         # noqa: BLE001
         e["raised"] = f"{type(ex).__name__}: {str(ex)[:160]}"
     return e
